@@ -16,7 +16,10 @@ def check(chk, thorough=False):
     chk.run('C03.c', 'R-FLOW', 'verdict flow is fail-closed: success only from a pycose verify result, exceptions and malformed result arrays fail, a later success never erases an earlier failure', lambda ob: c03c(tree, ob, 'bib'), floor=8)
     chk.run('C03.e', 'R-TRUTH', 'the AAD is rebuilt from decoded blocks, so decoding must preserve every bit of flags and values (= C02.e)', lambda ob: _c02e(tree, ob), floor=20)
     chk.run('C03.f', 'R-NOPATH', 'a verification that raises or reports failure is collected as a security failure of the bundle (= C12.b)', lambda ob: _c12b(tree, ob), floor=8)
-    chk.run('C03.g', 'R-WHO', 'the verifier takes the scope map and the protected parameters into the AAD exactly as they arrived in the block (no normalising, masking or re-encoding), so any change to them changes the AAD', lambda ob: c03g(tree, ob), floor=7)
+    chk.run('C03.g', 'R-WHO', 'the verifier takes the scope map and the protected parameters into the AAD exactly as they arrived in the block (no normalising, masking or re-encoding), so any change to them changes the AAD', lambda ob: c03g(tree, ob), floor=8)
+    chk.run('C03.h', 'R-GUARD', 'the data a MAC is checked over is the block data as received: parsed payloads are not written back over it before verification (= C02.d)', lambda ob: __import__('sa.props.c02', fromlist=['c02d']).c02d(tree, ob), floor=3)
+    chk.run('C03.i', 'R-GUARD', 'the structure check of a security block judges each target by itself: an unmodified block with several targets is not refused (= C12.g)', lambda ob: __import__('sa.props.c12', fromlist=['c12g']).c12g(tree, ob), floor=2)
+    chk.run('C03.j', 'R-PAIR', 'each certificate of a PEM chain file is parsed from its own lines: the line accumulator is emptied after every certificate (else every entry of the chain is the first certificate again)', lambda ob: c03j(tree, ob), floor=1)
     chk.run('C03.d', 'R-ORDER', 'a verification key comes only from the symmetric store by kid, or from a chain that was validated and whose node id matched; every other path raises', lambda ob: c03d(tree, ob), floor=4)
 
 
@@ -406,16 +409,46 @@ def c03g(tree, ob):
                            'received values that differ only in what the rewrite drops give the same AAD, and the change between them is not detected'.format(attr, code), st)
         if not taken and not any(f is fv.func for (f, st, k, v) in stores):
             ob.violate(SEC, fv.qual, 'self.{} = <parameter {}>'.format(attr, code), 'the received parameter {} is not bound into the AAD'.format(code), fv.func)
-    # the MAC / signature / ciphertext envelope itself: the result value is decoded only from a byte string
+    # the MAC / signature / ciphertext envelope itself: the result value is decoded only from a byte string, and all of it
     fd = FuncView(tree, SEC, 'CoseSecOpCtx.decode_msg')
-    loads = [c for c in calls_in(fd.func) if pm('cbor2.loads($x)', c) is not None]
-    l = one(loads, 'decode of the result value', ob)
-    x = l.args[0]
-    full = fd.value_at(x, l, depth=3)
-    if "result.getfieldval('value')" not in src(full) and 'result.value' not in src(full):
-        ob.violate(SEC, fd.qual, src(l), 'the COSE message is not decoded from the result value of the block', l)
-    elif isinstance(x, ast.Name) and fd.has(l, 'isinstance({}, bytes)'.format(x.id), True) and src(full) in ("result.getfieldval('value')", 'result.value'):
-        ob.site(SEC, l, 'result value decoded from a byte string item only')
+    loose = [c for c in calls_in(fd.func) if (call_name(c) or '') in ('cbor2.loads', 'loads')]
+    strict = [c for c in calls_in(fd.func) if (call_name(c) or '') in ('cbor2.load', 'load')]
+    opens = [c for c in calls_in(fd.func) if pm('io.BytesIO($x)', c) is not None or pm('BytesIO($x)', c) is not None]
+    tells = [r for r in walk_local(fd.func) if isinstance(r, ast.Raise) and any('.tell()' in t and 'len(' in t for (t, p) in (fd.facts(r) or ()))]
+    if loose:
+        ob.violate(SEC, fd.qual, src(loose[0]), 'the result value is decoded as one CBOR item and whatever follows it is ignored: a MAC / signature / ciphertext envelope altered by appended octets '
+                   'still verifies', loose[0])
+    elif not (strict and opens and tells):
+        ob.violate(SEC, fd.qual, 'cbor2.load(buf) ... buf.tell() != len(...)', 'the COSE message is not decoded from the whole result value', fd.func)
     else:
-        ob.violate(SEC, fd.qual, src(l) + ' with ' + src(full)[:50], 'the result value is converted from whatever item arrived (bytes() also takes an array of integers): a result re-encoded '
-                   'that way is an alteration of the MAC / signature that still verifies', l)
+        x = opens[0].args[0]
+        full = fd.value_at(x, opens[0], depth=3)
+        if src(full) not in ("result.getfieldval('value')", 'result.value'):
+            ob.violate(SEC, fd.qual, src(opens[0]), 'the COSE message is not decoded from the result value of the block', opens[0])
+        elif isinstance(x, ast.Name) and fd.has(opens[0], 'isinstance({}, bytes)'.format(x.id), True):
+            ob.site(SEC, opens[0], 'result value decoded from a byte string item only')
+            ob.site(SEC, tells[0], 'octets behind the COSE message are an error')
+        else:
+            ob.violate(SEC, fd.qual, src(opens[0]) + ' with ' + src(full)[:50], 'the result value is converted from whatever item arrived (bytes() also takes an array of integers): a result re-encoded '
+                       'that way is an alteration of the MAC / signature that still verifies', opens[0])
+
+
+def c03j(tree, ob):
+    ''' Sign1 verification walks sign_cert_file / verify_ca_file chains read by load_pem_chain().  The loop gathers lines
+    into an accumulator and parses it at each END line; unless the accumulator is emptied on every path from that parse
+    back to the loop head, the second parse starts with the first certificate's lines and returns the first certificate. '''
+    rel = 'bp/crypto.py'
+    fv = FuncView(tree, rel, 'load_pem_chain')
+    parses = [c for c in calls_in(fv.func) if (call_name(c) or '').endswith('load_pem_x509_certificate') and c.args and isinstance(c.args[0], ast.Name)]
+    pc = one(parses, 'certificate parse in load_pem_chain', ob)
+    acc = pc.args[0].id
+    loop = enclosing(pc, (ast.For, ast.While))
+    ob.require(loop is not None, 'the parse is not inside a loop')
+    resets = [n for n in walk_local(loop) if isinstance(n, ast.Assign) and src(n.targets[0]) == acc and isinstance(n.value, ast.Constant) and n.value.value in (b'', '')]
+    head = fv.node(loop.iter if isinstance(loop, ast.For) else loop.test)
+    ok = bool(resets) and fv.cfg.must_pass(fv.node(pc), head, {fv.node(r) for r in resets}, include_exc=False)[0]
+    if ok:
+        ob.site(rel, resets[0], 'accumulator emptied after each certificate')
+    else:
+        ob.violate(rel, 'load_pem_chain', '{} not reset after {}'.format(acc, src(pc)[:50]), 'the lines of a parsed certificate stay in the accumulator: every later entry of the chain file parses as the first '
+                   'certificate again, so a signer certified through an intermediate or under a second root cannot be verified and an unmodified bundle fails', pc)
